@@ -18,48 +18,32 @@ Theorem C12_segmentation_independent :
 Proof. exact seg_independent. Qed.
 Print Assumptions C12_segmentation_independent.
 
-(* ---- 2. the reader is the reference decoder --------------------------------------------------- *)
+(* ---- 2. the reader IS the reference decoder --------------------------------------------------- *)
 (* agrees_with_spec p c segs (Proofs/WsRefine.v): with the toy codec, feeding segs delivers fst (decode p c (concat segs))
    and ends in the status of its outcome *)
 
-(* Full statement: REFUTED by the faithful model in one way (open finding C12-data-frame-inside-fragmented-message,
-   replayed on the implementation by harness/c12.py).
-   [TEXT nf "a"][BINARY nf "b"][CONT fin "c"]: interleaved data frame, the reference fails with 1002 at the
-   second frame, the reader delivers BINARY "abc" *)
-Theorem C12_refines_spec_refuted_interleaved :
-  exists c segs, ~ agrees_with_spec rfc_profile c segs.
-Proof.
-  exists (mkcfg 0 false true), [[1; 1; 97; 2; 1; 98; 128; 1; 99]].
-  unfold agrees_with_spec. vm_compute. intros [H _]. discriminate H.
-Qed.
-Print Assumptions C12_refines_spec_refuted_interleaved.
-
-(* What IS proved, for all codecs / streams / segmentations: the reader delivers exactly the messages of the RFC
-   reference decoder (hand-written rfc_profile: a message may be as large as max_msg_size; close codes as registered)
-   up to the first violation, then fails with the reference's close code and delivers nothing more,
-   PROVIDED the first violation of the stream is not a data frame interleaved into a fragmented message
-   (hypothesis Hno; without it: C12_refines_spec_refuted_interleaved).  That is the only thing missing for the
-   full statement. *)
-Theorem C12_refines_spec_partial :
+(* FULL (after the repair 12587f3): for every codec, configuration, stream and segmentation the reader delivers exactly
+   the messages of the RFC reference decoder (hand-written rfc_profile: a message may be as large as max_msg_size;
+   close codes as registered) up to the first violation, then fails with the reference's close code and delivers
+   nothing more. *)
+Theorem C12_refines_spec :
   forall (Cx : Type) (decomp : Cx -> bytes -> N -> dres Cx) (c : cfg) (cx0 : Cx) (segs : list bytes),
     let r := feed_all Cx decomp c (Live (init_state Cx cx0)) segs in
     let d := decode Cx decomp rfc_profile c cx0 (concat segs) in
-    (forall e, snd d <> Violation e VDataInMessage) ->
     fst r = fst d /\ rd_status (snd r) = out_status (snd d).
 Proof. exact refines_rfc. Qed.
-Print Assumptions C12_refines_spec_partial.
+Print Assumptions C12_refines_spec.
 
-(* the hypothesis is satisfiable by a non-trivial stream: fragmented text with an interleaved ping, a compressed
-   binary message, a close frame, then a violation (reserved opcode) — cut in three places *)
-Example C12_refines_spec_partial_nonvacuous :
+(* a non-trivial instance: fragmented text with an interleaved ping, a compressed binary message, a close frame,
+   then a violation (reserved opcode) — cut in three places *)
+Example C12_refines_spec_example :
   let c := mkcfg 64 true true in
   let segs := [[1; 2; 104]; [101; 137; 0; 128; 3; 108; 108]; [111; 194; 2; 3; 7; 136; 2; 3; 232; 131; 0]] in
-  (forall e, snd (decode toycx toy_decomp rfc_profile c toy0 (concat segs)) <> Violation e VDataInMessage)
-  /\ decode toycx toy_decomp rfc_profile c toy0 (concat segs)
+  decode toycx toy_decomp rfc_profile c toy0 (concat segs)
      = ([MPing []; MText [104; 101; 108; 108; 111]; MBinary [7; 7; 7]; MClose 1000 []], Violation (WsErr 1002) VOpcode)
   /\ agrees_with_spec rfc_profile c segs.
-Proof. vm_compute. repeat split; intros; discriminate. Qed.
-Print Assumptions C12_refines_spec_partial_nonvacuous.
+Proof. vm_compute. repeat split. Qed.
+Print Assumptions C12_refines_spec_example.
 
 (* the comparisons regenerated from the source (pre-buffering size test, post-inflate size test, close-code test)
    are the ones of the hand-written RFC profile *)
@@ -80,6 +64,17 @@ Example C12_regression_exact_max_accepted :
      = Latched (WsErr 1009).
 Proof. vm_compute. split; reflexivity. Qed.
 Print Assumptions C12_regression_exact_max_accepted.
+
+(* fix 12587f3: a TEXT/BINARY frame while a fragmented message is open ends the stream with 1002, whether or not
+   payload was collected so far, and nothing of the open message is delivered *)
+Example C12_regression_interleaved_refused :
+  agrees_with_spec rfc_profile (mkcfg 0 false true) [[1; 1; 97; 2; 1; 98; 128; 1; 99]]
+  /\ feed toycx toy_decomp (mkcfg 0 false true) (Live (init_state toycx toy0)) [1; 1; 97; 2; 1; 98; 128; 1; 99]
+     = ([], Latched (WsErr 1002))
+  /\ feed toycx toy_decomp (mkcfg 0 false true) (Live (init_state toycx toy0)) [1; 0; 130; 1; 120; 128; 1; 121]
+     = ([], Latched (WsErr 1002)).
+Proof. vm_compute. repeat split. Qed.
+Print Assumptions C12_regression_interleaved_refused.
 
 Example C12_regression_close_1006_refused :
   feed toycx toy_decomp (mkcfg 0 false true) (Live (init_state toycx toy0)) [136; 2; 3; 238] = ([], Latched (WsErr 1002))
@@ -125,19 +120,17 @@ Theorem C12_queue_error_only_when_drained :
 Proof. exact q_read_err. Qed.
 Print Assumptions C12_queue_error_only_when_drained.
 
-(* ... so the application reads exactly the reference decoder's messages, then its close code (same hypothesis as
-   C12_refines_spec_partial) *)
-Theorem C12_consumer_refines_spec_partial :
+(* ... so the application reads exactly the reference decoder's messages, then its close code (FULL) *)
+Theorem C12_consumer_refines_spec :
   forall (Cx : Type) (decomp : Cx -> bytes -> N -> dres Cx) (c : cfg) (cx0 : Cx) (ops : list appop),
     let d := decode Cx decomp rfc_profile c cx0 (concat (feeds_of ops)) in
-    (forall e, snd d <> Violation e VDataInMessage) ->
     fst (app_observe Cx (app_run Cx decomp c (app0 Cx cx0) ops)) = fst d /\
     match snd (app_observe Cx (app_run Cx decomp c (app0 Cx cx0) ops)) with
     | Some e => out_status (snd d) = SFailed e
     | None => out_status (snd d) = SPending
     end.
 Proof. exact consumer_refines_rfc. Qed.
-Print Assumptions C12_consumer_refines_spec_partial.
+Print Assumptions C12_consumer_refines_spec.
 
 (* two valid messages and a violation in ONE network read, the application reads only afterwards (the schedule that
    a fail-fast queue gets wrong), and an eager consumer on the same bytes cut in three: same observation *)
